@@ -10,6 +10,7 @@ import (
 	"encoding/json"
 	"fmt"
 	"math/rand"
+	"time"
 
 	"github.com/absfs/absnfs"
 )
@@ -38,10 +39,15 @@ type c25Case struct {
 	Base    SrvCase `json:"base"`
 	Max     int64   `json:"max"`
 	Runtime bool    `json:"runtime"` // set through UpdatePolicyOptions after construction
+	// ViaExport: (with Runtime) set through GetExportOptions / UpdateExportOptions instead
+	ViaExport bool `json:"via_export"`
+	// Roundtrip: once the limit is in force, do the documented read-modify-write of an unrelated option
+	// (opts := GetExportOptions(); opts.IdleTimeout += 1s; UpdateExportOptions(opts)): the limit must survive
+	Roundtrip bool `json:"roundtrip"`
 }
 
 func (c c25Case) strings() []string {
-	return append([]string{fmt.Sprintf("MaxFileSize=%d runtime=%v", c.Max, c.Runtime)}, c.Base.strings()...)
+	return append([]string{fmt.Sprintf("MaxFileSize=%d runtime=%v viaExport=%v roundtrip=%v", c.Max, c.Runtime, c.ViaExport, c.Roundtrip)}, c.Base.strings()...)
 }
 
 func judgeC25(c c25Case) []Violation {
@@ -53,10 +59,23 @@ func judgeC25(c c25Case) []Violation {
 	wl := lim.world()
 	defer wl.Close()
 	if c.Runtime {
-		if err := wl.srv.NFS.UpdatePolicyOptions(absnfs.PolicyOptions{MaxFileSize: c.Max, Squash: "none"}); err != nil {
+		if c.ViaExport {
+			o := wl.srv.NFS.GetExportOptions()
+			o.MaxFileSize = c.Max
+			if err := wl.srv.NFS.UpdateExportOptions(o); err != nil {
+				return nil
+			}
+		} else if err := wl.srv.NFS.UpdatePolicyOptions(absnfs.PolicyOptions{MaxFileSize: c.Max, Squash: "none"}); err != nil {
 			return nil
 		}
 		wl.tr(fmt.Sprintf("srv maxfile %d", c.Max), "ok")
+	}
+	if c.Roundtrip {
+		o := wl.srv.NFS.GetExportOptions()
+		o.IdleTimeout += time.Second
+		if err := wl.srv.NFS.UpdateExportOptions(o); err != nil {
+			return nil
+		}
 	}
 	// the unlimited twin runs on its own backend
 	free := c.Base
@@ -65,7 +84,7 @@ func judgeC25(c c25Case) []Violation {
 	seedFS(fsf, free.Seed)
 	for i, o := range c.Base.Ops {
 		bad := func(class, what string) {
-			vs = append(vs, Violation{Class: class, What: fmt.Sprintf("%s [MaxFileSize=%d runtime=%v]", what, c.Max, c.Runtime), Detail: fmt.Sprintf("op %d: %s", i, o.String())})
+			vs = append(vs, Violation{Class: class, What: fmt.Sprintf("%s [MaxFileSize=%d runtime=%v viaExport=%v roundtrip=%v]", what, c.Max, c.Runtime, c.ViaExport, c.Roundtrip), Detail: fmt.Sprintf("op %d: %s", i, o.String())})
 		}
 		p := o.Dir
 		if o.Kind == "create" {
@@ -121,7 +140,7 @@ func judgeC25(c c25Case) []Violation {
 }
 
 func genC25(rng *rand.Rand, n int) c25Case {
-	c := c25Case{Max: []int64{1, 10, 100, 4096, 65541}[rng.Intn(5)], Runtime: rng.Intn(2) == 0}
+	c := c25Case{Max: []int64{1, 10, 100, 4096, 65541}[rng.Intn(5)], Runtime: rng.Intn(2) == 0, ViaExport: rng.Intn(2) == 0, Roundtrip: rng.Intn(3) == 0}
 	c.Base.Cfg.AttrTTL = 1
 	if rng.Intn(2) == 0 {
 		c.Base.Cfg.AttrTTL = 5e9
@@ -188,7 +207,7 @@ func checkC25(r *Result, rng *rand.Rand, thorough bool) {
 	if thorough {
 		ncases, n = 3000, 25
 	}
-	r.Rule = "WRITE / SETATTR(size) / CREATE(size) histories with offsets and sizes at, just below, just above and far above MaxFileSize in {1,10,100,4096,65541} (set at construction or at runtime), run in lock-step with an unlimited server"
+	r.Rule = "WRITE / SETATTR(size) / CREATE(size) histories with offsets and sizes at, just below, just above and far above MaxFileSize in {1,10,100,4096,65541} (set at construction, through UpdatePolicyOptions or through GetExportOptions/UpdateExportOptions; in a third of the cases followed by the documented read-modify-write of an unrelated option), run in lock-step with an unlimited server"
 	for i := 0; i < ncases; i++ {
 		c := genC25(rng, 2+rng.Intn(n))
 		vs := judgeC25(c)
